@@ -18,10 +18,10 @@ RULE = ("Part A (exhaustive): retry budget r in 1..4 (quick: 1..3); each transmi
         "after a delay from {0.05,1.0,1.95,2.05,3.0,3.95,4.05,6.5} s; V2 and V3; oracle = reference model of the retry loop "
         "(transmissions at 0,2,4,.. while nothing has arrived; return at the earliest arrival T*<2r with floor(T*/2)+1 "
         "byte-identical transmissions, else TimeoutError at 2r after exactly r) compared on transmission count, virtual return "
-        "time and outcome; with r=3 also Device._send_command()==[] and refresh() -> online False on timeout. Part B "
+        "time and outcome; with r=3 also Device._send_command()==[] and refresh() -> online False on timeout; a quarter of the patterns run with a configured connection lifetime that expires mid-exchange. Part B "
         "(exhaustive): every single fault and ordered pair from {drop, drop incl. handshake, error packet, garbage, peer close, peer reset (mid-exchange or while idle), "
         "connect refused, connect hangs, cancel at each protocol phase} x {V2,V3} x {fresh object, established connection}, "
-        "followed by a clean exchange immediately or after a pause (on V3 the user's single authenticate() call may have been abandoned during the 1 s settle pause after the handshake): faulty exchange ends within contract (frames / "
+        "followed by a clean exchange immediately or after a pause, at LAN level or through AirConditioner.refresh() (on V3 the user's single authenticate() call may have been abandoned during the 1 s settle pause after the handshake): faulty exchange ends within contract (frames / "
         "ProtocolError / TimeoutError / cancellation) and the clean exchange returns the device's reply (fresh handshake on V3 "
         "when needed) and refresh() reports online. Part C (Hypothesis): longer random fault sequences. Non-trivial: >=1 "
         "retransmission, or a fault followed by a successful exchange. Distinct by pattern.")
@@ -84,6 +84,9 @@ def check_retry(case: dict):
         else:
             ac = AC(ip="10.0.0.9", port=6444, device_id=9)
             lan = ac._lan
+        if case.get("lifetime"):
+            # a configured connection lifetime that runs out while the exchange is waiting: the exchange itself is unaffected
+            lan.max_connection_lifetime = case["lifetime"]
         if version == 3:
             await lan.authenticate(TOKEN, KEY)
         else:
@@ -267,7 +270,18 @@ def check_faults(case: dict):
                 dev.conns[-1].close()
                 await asyncio.sleep(0.01)
 
+        device_level = case.get("level") == "device"
+
         async def exchange():
+            if device_level:
+                # through the public device API: never raises, reports through `online`
+                n0 = len(dev.transmissions)
+                await ac.refresh()
+                if not ac.online:
+                    if len(dev.transmissions) == n0 and mode["kind"] is None and not dev.connect_script:
+                        raise RuntimeError("refresh() of a promptly responding device transmitted nothing")
+                    raise TimeoutError("offline")
+                return [dev.ac.state_frame(0x03)]
             return await lan.send(FRAME)
 
         if established:
@@ -410,6 +424,8 @@ def run(ctx) -> None:
                 if not ctx.mine(n):
                     continue
                 case = {"part": "A", "version": version, "r": r, "pattern": list(pattern)}
+                if n % 4 == 1:
+                    case["lifetime"] = [2, 3, 4, 6][(n // 4) % 4]
                 ctx.check(case, lambda c: _run_one(ctx, c))
                 if r == 3 and (not ctx.quick or n % 4 == 0):
                     for level in ("device", "refresh"):
@@ -449,6 +465,8 @@ def run(ctx) -> None:
                         case["start"] = "auth_cancel_pause"
                     if version == 3 and established and m % 5 == 0:
                         case["near_wrap"] = 17
+                    if m % 4 == 2:
+                        case["level"] = "device"
                     ctx.check(case, lambda c: _run_one(ctx, c))
     ctx.sweep("part B: single faults and ordered pairs x {V2,V3} x {fresh,established} x {immediately, after a pause}", m, True)
 
@@ -457,5 +475,5 @@ def run(ctx) -> None:
         "faults": st.lists(st.sampled_from(FAULTS), min_size=1, max_size=6),
         "pause": st.sampled_from([0.0, 0.0, 0.01, 0.04, 0.06, 0.5, 1.2, 3.0, 30.0]),
         "cancel_jitter": st.sampled_from([0.0, 0.0, 0.01, -0.01, 0.025]),
-        "garbage": st.binary(min_size=1, max_size=40).map(lambda b: b.hex()), "start": st.sampled_from(["auth", "auth", "auth_cancel_pause"]), "near_wrap": st.sampled_from([0, 0, 0, 17])})
+        "garbage": st.binary(min_size=1, max_size=40).map(lambda b: b.hex()), "start": st.sampled_from(["auth", "auth", "auth_cancel_pause"]), "near_wrap": st.sampled_from([0, 0, 0, 17]), "level": st.sampled_from(["lan", "lan", "device"])})
     ctx.hyp("part C", cases, lambda c: _run_one(ctx, c), ctx.n(1600, 96000))
